@@ -297,14 +297,15 @@ EblifInit == << Cnew("N", "top"), Ccreate("NL", 1, "hdi_primitives", 0), Ccreate
                 Cconnect(6, IPin(6)), Cconnect(7, IPin(7)), Cconnect(8, IPin(8)), Cconnect(9, IPin(9)),
                 Csettopdef(1, 3), [op |-> "set_name", kind |-> "I", x |-> 1, val |-> "top"] >>
 (* .names: the logic gates as the reader represents them (logic-gate_<inputs> in the primitive library, ports in_0.., out), *)
-(* one two-input gate q whose pins the build steps tie to any nets, one constant driver k0 on net I                       *)
+(* one two-input gate q and one constant driver k0, whose pins the build steps tie to any nets (k0 may drive the net q:   *)
+(* its provisional name then is that of the earlier instance)                                                             *)
 EblifNamesInit == EblifInit \o <<
                 Ccreate("LD", 1, "logic-gate_2", 0), Ccreate("LD", 1, "logic-gate_0", 0),
                 Ccreate("DP", 5, "in_0", 1), Ccreate("DP", 5, "in_1", 1), Ccreate("DP", 5, "out", 1), Ccreate("DP", 6, "out", 1),
                 [op |-> "set_dir", x |-> 8, ival |-> 2], [op |-> "set_dir", x |-> 9, ival |-> 2],
                 [op |-> "set_dir", x |-> 10, ival |-> 3], [op |-> "set_dir", x |-> 11, ival |-> 3],
-                Cchild(3, "k0", 6), Cchild(3, "q", 5), Csetitem("I", 2, "k", "n"), Csetitem("I", 3, "k", "n"),
-                Csetitem("I", 2, "props", "v0"), Cconnect(10, OPin(2, 13)) >>
+                Cchild(3, "q", 5), Cchild(3, "k0", 6), Csetitem("I", 2, "k", "n"), Csetitem("I", 3, "k", "n"),
+                Csetitem("I", 3, "props", "v0") >>
 EblifLatchInit == EblifInit \o <<
                 \* the latch primitive as the reader represents it (ports 8..12, pins 10..14), the nets "re" and "0"
                 \* (cables 10, 11; wires 13, 14) and one latch instance "lq" with type, control and init-val tied
